@@ -89,15 +89,16 @@ func main() {
 	}
 
 	r := vcommon.Start("C27", "fault_enumeration")
-	r.Rule = "crash states = for every history: every prefix of the write log; the next write torn at every byte; the next appending write " +
+	r.Rule = "crash states = for every history: every prefix of the write log; the next write torn at every byte (quick: header writes every byte below 128 then every 8th); the next appending write " +
 		"zero-filled from every byte (quick: every byte below 128, then every 4th); every non-suffix subset of the last 3 writes lost. distinct = (history, kind of state, per-file shape " +
 		"[header, complete parts, kind of tail, duration field], status of every playback request)"
 	hs := histories(r.Thorough())
 
 	base, err := reclib.TempDir("c27")
 	if err != nil {
-		vcommon.Harness("tempdir: %v", err)
+		harnessErr("tempdir: %v", err)
 	}
+	scratchDir = base
 	defer os.RemoveAll(base)
 
 	corpus := &Corpus{}
@@ -113,12 +114,12 @@ func main() {
 		rec, err := reclib.Record(dir, "p", h, func(_, _, _ int) {
 			s, err2 := reclib.Snapshot(dir)
 			if err2 != nil {
-				vcommon.Harness("snapshot: %v", err2)
+				harnessErr("snapshot: %v", err2)
 			}
 			snaps = append(snaps, s)
 		})
 		if err != nil {
-			vcommon.Harness("history %q: %v", h.Name, err)
+			harnessErr("history %q: %v", h.Name, err)
 		}
 		steps += len(snaps)
 		final := snaps[len(snaps)-1]
@@ -129,7 +130,7 @@ func main() {
 		for step, s := range snaps {
 			o, err2 := inferOps(prev, s, step)
 			if err2 != nil {
-				vcommon.Harness("history %q: %v", h.Name, err2)
+				harnessErr("history %q: %v", h.Name, err2)
 			}
 			ops = append(ops, o...)
 			prev = s
@@ -137,11 +138,11 @@ func main() {
 		// replaying the log must give the final directory byte for byte
 		rp := replay(ops)
 		if len(rp) != len(final) {
-			vcommon.Harness("history %q: replay has %d files, disk %d", h.Name, len(rp), len(final))
+			harnessErr("history %q: replay has %d files, disk %d", h.Name, len(rp), len(final))
 		}
 		for k, v := range final {
 			if !bytes.Equal(rp[k], v) {
-				vcommon.Harness("history %q: replay of the inferred log differs from the disk for %s", h.Name, k)
+				harnessErr("history %q: replay of the inferred log differs from the disk for %s", h.Name, k)
 			}
 		}
 
@@ -288,7 +289,7 @@ func main() {
 				var n int
 				fine, n, terr = splitBySyscalls(ops, calls)
 				if terr != nil {
-					vcommon.Harness("history %q: the strace log and the snapshot log disagree: %v", h.Name, terr)
+					harnessErr("history %q: the strace log and the snapshot log disagree: %v", h.Name, terr)
 				}
 				straceUsed++
 				syscallsMatched += n
@@ -302,7 +303,7 @@ func main() {
 		rp = replay(fine)
 		for k, v := range final {
 			if !bytes.Equal(rp[k], v) {
-				vcommon.Harness("history %q: replay of the refined log differs from the disk for %s", h.Name, k)
+				harnessErr("history %q: replay of the refined log differs from the disk for %s", h.Name, k)
 			}
 		}
 		totalOps += len(fine)
@@ -322,10 +323,10 @@ func main() {
 	{
 		f, err2 := os.Create(cf)
 		if err2 != nil {
-			vcommon.Harness("corpus: %v", err2)
+			harnessErr("corpus: %v", err2)
 		}
 		if err2 = gob.NewEncoder(f).Encode(corpus); err2 != nil {
-			vcommon.Harness("corpus: %v", err2)
+			harnessErr("corpus: %v", err2)
 		}
 		f.Close()
 	}
@@ -345,7 +346,7 @@ func main() {
 		stride++
 	}
 	total := len(corpus.States)
-	deadline := time.Now().Add(150 * time.Second)
+	deadline := time.Now().Add(100 * time.Second)
 	if r.Thorough() {
 		deadline = time.Now().Add(13 * time.Minute)
 	}
@@ -370,25 +371,26 @@ func main() {
 		}
 		var res Result
 		if err2 := json.Unmarshal(cr.Data, &res); err2 != nil {
-			vcommon.Harness("worker answer: %v", err2)
+			harnessErr("worker answer: %v", err2)
 		}
 		reqs += res.Reqs
 		r.Distinct(res.Class)
 		for _, v := range res.Viols {
 			if strings.HasPrefix(v.Key, "harness:") {
-				vcommon.Harness("%s: %s", v.Key, v.What)
+				harnessErr("%s: %s", v.Key, v.What)
 			}
 			r.Violation(v.Key, v.What, map[string]any{"state": st.String(), "desc": st, "history": corpus.Hists[st.Hist].History.Name})
 		}
 	})
 	if err != nil {
-		vcommon.Harness("worker pool: %v", err)
+		harnessErr("worker pool: %v", err)
 	}
 
 	r.Set("histories", len(corpus.Hists))
 	r.Set("history_steps", steps)
 	r.Set("write_log_entries", totalOps)
 	r.Set("crash_states", len(corpus.States))
+	r.Set("states", len(corpus.States))
 	ks := make([]string, 0, len(kinds))
 	for k := range kinds {
 		ks = append(ks, k)
@@ -418,6 +420,7 @@ func main() {
 		"the newest unit of every track at close time is held back by the recorder: its presence is a don't-care",
 		"list must cover the complete parts within 2 ms (the header stores milliseconds, file names microseconds)",
 	}
+	_ = os.RemoveAll(base)
 	r.Finish()
 }
 
@@ -458,4 +461,14 @@ func gcd(a, b int) int {
 		a, b = b, a%b
 	}
 	return a
+}
+
+var scratchDir string
+
+// harnessErr removes the scratch directory and reports a harness error (exit 2).
+func harnessErr(format string, a ...any) {
+	if scratchDir != "" {
+		_ = os.RemoveAll(scratchDir)
+	}
+	vcommon.Harness(format, a...)
 }
